@@ -67,6 +67,8 @@ func defsOptionSets() [][]func(*rux.Router) {
 		{rux.StrictLastSlash, rux.HandleMethodNotAllowed},
 		{rux.CachingWithNum(2), rux.HandleFallbackRoute},
 		{rux.EnableCaching, rux.HandleMethodNotAllowed, rux.UseEncodedPath},
+		{rux.CachingWithNum(0)},                                              // caching enabled with capacity 0
+		{rux.EnableCaching, rux.MaxNumCaches(0), rux.HandleMethodNotAllowed}, // the same, the other way round
 	}
 }
 
@@ -152,7 +154,7 @@ func defsRun(s *Summary, l defsLine) {
 		// totality of lookups on an accepted definition
 		paths := defsPaths
 		if l.Method == nil {
-			lit := strings.NewReplacer("{", "", "}", "", "[", "", "]", "", "(?:", "", "(", "", ")", "", ":", "", `\d+`, "7", "*", "", "?", "").Replace(path)
+			lit := strings.NewReplacer("{", "", "}", "", "[", "", "]", "", "(?P<n>", "", "(?:", "", "(", "", ")", "", ":", "", `\d+`, "7", "*", "", "?", "").Replace(path)
 			paths = append(append([]string{}, defsPaths...), "/"+strings.TrimLeft(lit, "/"), path)
 		}
 		for _, m := range defsMethods {
